@@ -7,6 +7,7 @@ import EPV.Gen.C04Tables
 import EPV.Lemmas.PrattTables
 import EPV.Props.C04
 import EPV.Lemmas.PrattLexer
+import EPV.Lemmas.PrattSourceAll
 namespace EPV.C04
 open EPV.Syn EPV.Pratt EPV.Gen.C04
 
@@ -242,36 +243,70 @@ theorem model_eq_reference_v30 (toks : List Tok) (t : Tree) (h : specParse level
     (hg : guardsPass (tableOf opTable_v30) t = true) : modelParse opTable_v30 toks = .ok t :=
   model_eq_reference _ _ _ _ _ _ (consistent_of_check _ _ _ consistent_v30) (pos_of_check _ _ _ consistent_v30) toks t h hg
 
-/-! ### unary lookup `?k` (3.1 [76]): not a `nud` of the model, but its rbp is read from the code -/
+/-! ### unary lookup `?k` (3.1 [76] UnaryLookup ::= "?" KeySpecifier, a PrimaryExpr) -/
 
-/-- the rbp with which `LookupOperatorToken.nud` parses its key (read by the translator from the source of the
-nud) is at least the lbp of every modelled operator symbol; so in the table where `?` has that prefix `nud`,
-the operand of a unary lookup in any parse result is never built by a `led` — the lookup is closed before any
-binary, typed or postfix operator applies, i.e. it is parsed as a primary expression (the key check
-`expected_next(name, integer, '(', '*')` itself is covered by correspondence only) -/
-theorem unary_lookup_primary_v31 (toks : List Tok) (t : Tree)
-    (h : parse (tableOf (withPrefixNud opTable_v31 "?" unaryLookupRbp_v31)) toks = .ok t) :
-    anyNode (fun n => match n with
-      | .pre q x => q == opTable_v31.findIdx (·.sym == "?") && !notLedBuilt x
-      | _ => false) t = false :=
-  dominant_prefix_operand _ _ unaryLookupRbp_v31 (by decide +kernel) (by decide +kernel) t (pratt_wfr _ toks t h)
-
-theorem unary_lookup_primary_v31c (toks : List Tok) (t : Tree)
-    (h : parse (tableOf (withPrefixNud opTable_v31c "?" unaryLookupRbp_v31c)) toks = .ok t) :
-    anyNode (fun n => match n with
-      | .pre q x => q == opTable_v31c.findIdx (·.sym == "?") && !notLedBuilt x
-      | _ => false) t = false :=
-  dominant_prefix_operand _ _ unaryLookupRbp_v31c (by decide +kernel) (by decide +kernel) t (pratt_wfr _ toks t h)
-
-/-- test (literals): with that table `( ? 1 + ? 2 )` is `(?1) + (?2)` and `? n1 [ 1 ]` is `(?n1)[1]` -/
-example :
-    let r := withPrefixNud opTable_v31 "?" unaryLookupRbp_v31
+/-- the `?` row of the 3.1 table has a prefix `nud` whose rbp is the largest binding power and whose next-token
+check admits key specifiers only (part of `consistent_v31`); hence — `derives_v31` — the operand of a unary lookup
+in any parse result is a KeySpecifier and the lookup is a primary: with the generated table `( ? 1 + ? 2 )` is
+`(?1) + (?2)`, `? n1 [ 1 ]` is `(?n1)[1]`, `? n1 ? 2` is `(?n1)?2`, and model = reference parser on them -/
+theorem unary_lookup_v31 :
+    let r := opTable_v31
+    let q := r.findIdx (·.sym == "?")
     (modelParse r [opTok r "(", opTok r "?", num 1, opTok r "+", opTok r "?", num 2, .close 0]).toOption =
-      some (.group (r.findIdx (·.sym == "(")) 0 (.bin (r.findIdx (·.sym == "+"))
-        (.pre (r.findIdx (·.sym == "?")) (.atom 1 1)) (.pre (r.findIdx (·.sym == "?")) (.atom 1 2)))) ∧
+      some (.group (r.findIdx (·.sym == "(")) 0 (.bin (r.findIdx (·.sym == "+")) (.pre q (.atom 1 1)) (.pre q (.atom 1 2)))) ∧
     (modelParse r [opTok r "?", nm 1, opTok r "[", num 1, .close 1]).toOption =
-      some (.post (r.findIdx (·.sym == "[")) 1 (.pre (r.findIdx (·.sym == "?")) (.atom 0 1)) (.atom 1 1)) := by
+      some (.post (r.findIdx (·.sym == "[")) 1 (.pre q (.atom 0 1)) (.atom 1 1)) ∧
+    (modelParse r [opTok r "?", nm 1, opTok r "?", num 2]).toOption = some (.bin q (.pre q (.atom 0 1)) (.atom 1 2)) ∧
+    (modelParse r [opTok r "(", opTok r "?", num 1, opTok r "+", opTok r "?", num 2, .close 0]).toOption =
+      specParse levels31 true r [opTok r "(", opTok r "?", num 1, opTok r "+", opTok r "?", num 2, .close 0] ∧
+    rejects r [opTok r "?", opTok r "-", nm 1] = true ∧
+    specParse levels31 true r [opTok r "?", opTok r "-", nm 1] = none := by
   decide +kernel
+
+/-! ### textual `source` round trip, for every parse result -/
+
+open EPV.Source in
+/-- the lexical tables fit the operator tables (all seven parser configurations): every symbol can be written the
+way `source` writes it in its role (glued / with blanks), closers, type texts and operand texts are separable -/
+theorem text_ok :
+    textCheckB opTable_v10 textTbl_v10 followCh_v10 startCh_v10 ntys_v10 = true ∧
+    textCheckB opTable_v20 textTbl_v20 followCh_v20 startCh_v20 ntys_v20 = true ∧
+    textCheckB opTable_v30 textTbl_v30 followCh_v30 startCh_v30 ntys_v30 = true ∧
+    textCheckB opTable_v31 textTbl_v31 followCh_v31 startCh_v31 ntys_v31 = true ∧
+    textCheckB opTable_v20c textTbl_v20 followCh_v20 startCh_v20 ntys_v20 = true ∧
+    textCheckB opTable_v30c textTbl_v30 followCh_v30 startCh_v30 ntys_v30 = true ∧
+    textCheckB opTable_v31c textTbl_v31 followCh_v31 startCh_v31 ntys_v31 = true := by decide +kernel
+
+open EPV.Source in
+/-- **`source` round trip as a theorem** (3.1; `_v10`, `_v20`, `_v30` and the compatibility-mode tables are the same
+statement): for every token list the parser model accepts, the `source` text of the resulting tree (the model of
+`XPathToken.source`, compared character by character with the real one on every run) is split by the lexeme
+model into exactly the lexemes of the input tokens, and re-parsing those tokens gives the same tree. -/
+theorem source_roundtrip_v31 (toks : List Tok) (t : Tree) (h : parse (tableOf opTable_v31) toks = .ok t) :
+    lexAll textTbl_v31 (textOf (render textTbl_v31 t)).length (textOf (render textTbl_v31 t)) =
+      some (toks.flatMap (tokLex textTbl_v31)) ∧ parse (tableOf opTable_v31) t.yield = .ok t := by
+  have hok := textOK_of_check opTable_v31 textTbl_v31 followCh_v31 startCh_v31 ntys_v31
+    (by intro n; show (_[n % 6]?).getD [] = (_[n % ntys_v31 % 6]?).getD []; simp [ntys_v31, Nat.mod_mod]) text_ok.2.2.2.1
+  refine ⟨?_, parse_yield_idem _ toks t h⟩
+  rw [source_lexes_back opTable_v31 textTbl_v31 _ _ hok t (pratt_wfr _ toks t h), pratt_yield _ toks t h]
+
+open EPV.Source in
+theorem source_roundtrip_v20 (toks : List Tok) (t : Tree) (h : parse (tableOf opTable_v20) toks = .ok t) :
+    lexAll textTbl_v20 (textOf (render textTbl_v20 t)).length (textOf (render textTbl_v20 t)) =
+      some (toks.flatMap (tokLex textTbl_v20)) ∧ parse (tableOf opTable_v20) t.yield = .ok t := by
+  have hok := textOK_of_check opTable_v20 textTbl_v20 followCh_v20 startCh_v20 ntys_v20
+    (by intro n; show (_[n % 6]?).getD [] = (_[n % ntys_v20 % 6]?).getD []; simp [ntys_v20, Nat.mod_mod]) text_ok.2.1
+  refine ⟨?_, parse_yield_idem _ toks t h⟩
+  rw [source_lexes_back opTable_v20 textTbl_v20 _ _ hok t (pratt_wfr _ toks t h), pratt_yield _ toks t h]
+
+open EPV.Source in
+theorem source_roundtrip_v10 (toks : List Tok) (t : Tree) (h : parse (tableOf opTable_v10) toks = .ok t) :
+    lexAll textTbl_v10 (textOf (render textTbl_v10 t)).length (textOf (render textTbl_v10 t)) =
+      some (toks.flatMap (tokLex textTbl_v10)) ∧ parse (tableOf opTable_v10) t.yield = .ok t := by
+  have hok := textOK_of_check opTable_v10 textTbl_v10 followCh_v10 startCh_v10 ntys_v10
+    (by intro n; show (_[n % 6]?).getD [] = (_[n % ntys_v10 % 6]?).getD []; simp [ntys_v10, Nat.mod_mod]) text_ok.1
+  refine ⟨?_, parse_yield_idem _ toks t h⟩
+  rw [source_lexes_back opTable_v10 textTbl_v10 _ _ hok t (pratt_wfr _ toks t h), pratt_yield _ toks t h]
 
 /-! ### tokenizer: the order of the custom alternatives (a Python `set`, hash-seed dependent) is irrelevant -/
 
